@@ -893,6 +893,10 @@ class sptensor:
         >>> S.innerprod(K)
         3.0
         """
+        if isinstance(other, (ttb.sptensor, ttb.tensor, ttb.ktensor, ttb.ttensor)):
+            if self.shape != other.shape:
+                assert False, "Tensors must be same shape for innerproduct"
+
         # If all entries are zero innerproduct must be 0
         if self.nnz == 0:
             return 0
